@@ -253,6 +253,144 @@ def burst_history(report, drv, store, evs, tag, rng):
     report.count("burst_histories_kv")
 
 
+# ---- versions of one address that are far apart in time -------------------------------------------------------------------
+# The property puts no bound on the distance between two versions of an address: a profile, a contact list, a relay list or an
+# article that was last edited a day, a year or decades ago is superseded by today's edit exactly like one edited a second ago
+# (and nothing obliges the older version to have been *accepted* recently: it may have been stored long ago or imported).  The
+# histories above keep every timestamp within a few seconds of T0, so nothing in them would notice a replacement step that only
+# looks a bounded distance back (a time window on the scan, a cut-off taken from a configuration option, arithmetic that wraps
+# at a byte or 32-bit carry).  The distances below are therefore chosen on general grounds, not after any option of /repo: every
+# calendar scale from a second to the whole range of a 4-byte timestamp (about 136 years), both sides of a year / a decade, and
+# the edges of the range itself.
+DAY = 86400
+YEAR = 365 * DAY
+FAR_GAPS = [1, 255, 256, 3600, DAY, 30 * DAY, YEAR - 1, YEAR, YEAR + 1, YEAR + DAY, 2 * YEAR, 5 * YEAR, 10 * YEAR - 1, 10 * YEAR,
+            10 * YEAR + 1, 10 * YEAR + DAY, 11 * YEAR, 20 * YEAR, 40 * YEAR, 1 << 24, 1 << 30]
+# anchors for the newer version: today, a few realistic dates around it, and the edges of the signed / unsigned 32-bit range
+FAR_ANCHORS = [T0, T0 + 400 * DAY, T0 - 3 * YEAR, 0x65ffffff, 0x66000000, (1 << 31) - 1, 1 << 31, (1 << 32) - 2, (1 << 32) - 1]
+# (never 0: aionostr's Event() replaces a falsy created_at by the wall clock, so an event "created at 0" does not exist for the
+# relay — it is stored as created now, and with the signature validator on it is refused; same decision as in C10, DESIGN §12)
+FAR_EDGES = [1, 2, 3, (1 << 31) - 1, 1 << 31, (1 << 32) - 1]
+FAR_KINDS = [0, 3, 10002, 30023]
+
+
+def far_pairs():
+    """(older, newer) timestamps: every anchor with every distance that stays in range, every anchor against the low edges of
+    the range (the distance is then the anchor itself), and the edges against each other"""
+    out = []
+    for new in FAR_ANCHORS:
+        for g in FAR_GAPS:
+            if new - g >= 1:
+                out.append((new - g, new))
+        for lo in (1, 2, 3):
+            out.append((lo, new))
+    for lo, hi in itertools.combinations(FAR_EDGES, 2):
+        out.append((lo, hi))
+    seen, uniq = set(), []
+    for p in out:
+        if p not in seen and p[0] < p[1]:
+            seen.add(p)
+            uniq.append(p)
+    return uniq
+
+
+def far_pair_history(rng, pairs, order):
+    """one author's long-lived addresses: for every replaceable kind of FAR_KINDS an older and a newer version (their distance
+    drawn from `pairs`), next to events as old as the older version that no acceptance may touch: a regular note of the same
+    author, the same kinds by another author, an article with another d-value.  order: 'up' = the older version is stored when
+    the newer arrives (it must go); 'down' = the newer is stored when the older arrives (the newer must stay, the older may be
+    refused or stored but must not displace it); 'mixed' = per kind."""
+    a, b = AUTH
+    evs, i = [], 0
+    keep, first, second = [], [], []
+    told0 = pairs[0][0]
+    keep.append(mk(rng, 200, a, 1, None, told0))
+    keep.append(mk(rng, 201, b, 0, None, told0))
+    keep.append(mk(rng, 202, b, 30023, "a", told0))
+    keep.append(mk(rng, 203, a, 30023, "ab", told0))
+    for kind, (told, tnew) in zip(FAR_KINDS, pairs):
+        d = "a" if kind >= 30000 else None
+        old, new = mk(rng, i, a, kind, d, told), mk(rng, i + 1, a, kind, d, tnew)
+        i += 2
+        up = order == "up" or (order == "mixed" and rng.random() < 0.5)
+        first.append(old if up else new)
+        second.append(new if up else old)
+    evs = keep + first + second
+    return evs
+
+
+def far_random_history(rng):
+    """2-5 versions of ONE address at timestamps from the whole range (anchors, anchors minus a distance, edges), in random
+    arrival order, with bystanders; occasionally a version is resubmitted"""
+    a, b = AUTH
+    kind = rng.choice(FAR_KINDS)
+    d = rng.choice(["", "a", "bare", None]) if kind >= 30000 else None
+    times = []
+    for _ in range(rng.randint(2, 5)):
+        r = rng.random()
+        if r < 0.25:
+            times.append(rng.choice(FAR_EDGES))
+        elif r < 0.5:
+            times.append(rng.choice(FAR_ANCHORS))
+        else:
+            t = rng.choice(FAR_ANCHORS) - rng.choice(FAR_GAPS) * rng.choice([1, 1, 1, 2, 3])
+            times.append(t if t >= 1 else rng.choice(FAR_EDGES))
+    evs = [mk(rng, i, a, kind, d, t) for i, t in enumerate(times)]
+    tb = rng.choice(times)
+    evs.append(mk(rng, 100, a, 1, None, tb))
+    evs.append(mk(rng, 101, b, kind, d, tb))
+    if kind >= 30000:
+        evs.append(mk(rng, 102, a, kind, "ab" if d != "ab" else "b", tb))
+    else:
+        evs.append(mk(rng, 102, a, {0: 3, 3: 0}.get(kind, 10003), None, tb))
+    rng.shuffle(evs)
+    if rng.random() < 0.2:
+        evs.append(dict(rng.choice(evs)))
+    return evs
+
+
+def far_apart(report, drv, stores, rng, tier):
+    """both backends, the same oracle as everywhere (run_history): after every accepted event no older version of its address
+    is stored, whatever its age; the newest version of every address and everything of another address is still there"""
+    pairs = far_pairs()
+    report.coverage["far_apart_rule"] = (
+        "versions of one address (kinds %r) whose created_at are %d distinct (older, newer) pairs: newer in %r, distance in %r "
+        "seconds, plus the edges %r against each other; older-first, newer-first and mixed arrival; bystanders of the older "
+        "version's age (regular note, other author, other d) must survive; both backends"
+        % (FAR_KINDS, len(pairs), FAR_ANCHORS, FAR_GAPS, FAR_EDGES))
+    # directed, four pairs (one per kind) to a history: every pair is used at least once with the older version stored first
+    # (the newer must remove it); with the newer stored first (it must stay) every pair in the thorough tier and a seeded half
+    # of them in the quick tier, which keeps the family's share of the quick run under ~20 s
+    n = 0
+    for order in ("up", "down"):
+        sh = list(pairs)
+        rng.shuffle(sh)
+        if order == "down" and tier == "quick":
+            sh = sh[:len(sh) // 2]
+        while len(sh) % len(FAR_KINDS):
+            sh.append(rng.choice(pairs))
+        for j in range(0, len(sh), len(FAR_KINDS)):
+            evs = far_pair_history(rng, sh[j:j + len(FAR_KINDS)], order)
+            for st in stores:
+                run_history(report, drv, st, evs, "far:%s:%d" % (order, j))
+            report.count("far_apart_pair_histories")
+            report.count("far_apart_pairs_" + order, len(FAR_KINDS))
+            n += 1
+    for j in range(8 if tier == "quick" else 200):
+        evs = far_pair_history(rng, [rng.choice(pairs) for _ in FAR_KINDS], "mixed")
+        for st in stores:
+            run_history(report, drv, st, evs, "far:mixed:%d" % j)
+        report.count("far_apart_pair_histories")
+        n += 1
+    for j in range(40 if tier == "quick" else 1500):
+        evs = far_random_history(rng)
+        for st in stores:
+            run_history(report, drv, st, evs, "far:rand:%d" % j)
+        report.count("far_apart_random_histories")
+        n += 1
+    report.coverage["far_apart_histories"] = n
+
+
 def run(report, tier, seed):
     rng = random.Random(seed)
     drv = common.Driver()
@@ -261,7 +399,8 @@ def run(report, tier, seed):
         "histories of 2-7 events over 2 authors x kinds {0,3,1,10002,30000,30001} x d in {absent, bare, '', a, ab, abc, "
         "b, é} (+ second d tags) x 5 timestamps incl. equal ones, random arrival order, resubmissions, versions that the backend "
         "refuses late (a bare expiration tag makes the SQL tag indexing raise after pre_save); both backends; LMDB also in "
-        "bursts of 2-4 events acknowledged and queued before the writer runs; "
+        "bursts of 2-4 events acknowledged and queued before the writer runs; versions of one address far apart in time "
+        "(see far_apart_rule); "
         "after every event: correspondence of the stored set with the Lean model and the three clauses of C09 on the real "
         "store; non-trivial = the history contains a replaceable kind")
     report.assumptions += ["validators disabled (synthetic unsigned events); admission is C03/C06/C16's business"]
@@ -277,6 +416,7 @@ def run(report, tier, seed):
                 run_history(report, drv, st, evs, i)
             if i % 4 == 0:
                 burst_history(report, drv, stores[0], gen_history(rng, rng.randint(3, 8)), i, rng)
+        far_apart(report, drv, stores, random.Random("C09-far:%d" % seed), tier)
         if tier == "thorough":
             exhaustive(report, drv, stores)
     finally:
